@@ -50,7 +50,7 @@ class ECPAccumulator:
                     naip[i] = 6
                 elif maxL == 1:
                     naip[i] = 6
-                elif maxL == 2:
+                else:
                     naip[i] = 12
         if isinstance(naip, int):  # compatibility with old behavior
             naip = naip * np.ones(len(self.functors), dtype=int)
